@@ -72,20 +72,22 @@ let hash_lookup (c : case) kind (inp : bytes) : bytes =
           | None -> sentinel)
        else sentinel)
 
-let mk_env (c : case) : env =
+let mk_env_with (c : case) (lock : int) (seq : int) : env =
   let known = List.concat_map (fun (_, k) -> [k.full; k.xonly]) !keys in
   let tap = c.kind = "tr" in
   { e_sv = SvBase;
-    e_locktime = n_of_int c.lock; e_sequence = n_of_int c.seq; e_txversion = n_of_int c.txv;
+    e_locktime = n_of_int lock; e_sequence = n_of_int seq; e_txversion = n_of_int c.txv;
     e_sigok = (fun k s -> List.mem (k, s) c.sigpairs);
     e_keyok = (fun k ->
       let l = List.length k in
       if tap then l = 32
-      else (l = 33 || (l = 65 && (c.kind = "sh" || c.kind = "bare"))) && List.mem k known);
+      else (l = 33 || (l = 65 && (c.kind = "sh" || c.kind = "bare" || c.kind = "pkh"))) && List.mem k known);
     e_sha256 = hash_lookup c "sha256";
     e_hash256 = hash_lookup c "hash256";
     e_ripemd160 = hash_lookup c "ripemd160";
     e_hash160 = hash_lookup c "hash160" }
+
+let mk_env (c : case) : env = mk_env_with c c.lock c.seq
 
 (* ------------------------------------------------------------------ MS prefix parser *)
 exception Parse of string
@@ -175,11 +177,15 @@ let fill_of (c : case) km pm leaf : fill =
         | HRipemd160 -> a.a_ripemd160 h | HHash160 -> a.a_hash160 h) }
 
 let leaf_hash_of_script : (bytes * string) list ref = ref []
+let runs : (string, (bytes list * bytes * bool) option) Hashtbl.t = Hashtbl.create 64
 
 (* ------------------------------------------------------------------ statistics *)
+let c03_hook : (case -> string -> string -> string -> bytes list -> bytes -> bool -> unit) ref = ref (fun _ _ _ _ _ _ _ -> ())
 let stats_ok = ref 0 and stats_bad = ref 0 and stats_err = ref 0 and stats_panic = ref 0
 let model_eq = ref 0 and model_diff = ref 0
 let c02_checked = ref 0 and c02_bad = ref 0
+let c02_brute_runs = ref 0 and c02_brute_execs = ref 0 and c02_brute_max = ref 0
+let ms_keys_fwd : (ms -> int list) ref = ref (fun _ -> [])
 let hist : (string, int) Hashtbl.t = Hashtbl.create 64
 let bump k = Hashtbl.replace hist k (1 + (try Hashtbl.find hist k with Not_found -> 0))
 let frag_hist (toks : string list) =
@@ -248,13 +254,14 @@ let handle_run (c : case) (toks : string list) =
       incr stats_panic;
       Printf.printf "PANIC case=%s kind=%s mode=%s keymask=%s premask=%s desc=%s\n" c.id c.kind mode km pm c.desc
     end;
+    if verdict <> "PANIC" then Hashtbl.replace runs (mode ^ "/" ^ km ^ "/" ^ pm) impl;
     let e = mk_env c in
     (* (1) C01 oracle on the implementation's own output *)
     (match impl with
      | Some (wit, ssig, tapok) ->
        let ok = verify_spend e (fun _ _ -> tapok) c.spk ssig wit in
        bump (c.kind ^ "/" ^ mode ^ "/ok");
-       if ok then incr stats_ok
+       if ok then (incr stats_ok; !c03_hook c mode km pm wit ssig tapok)
        else begin
          incr stats_bad;
          Printf.printf "BAD C01 case=%s kind=%s mode=%s keymask=%s premask=%s lock=%d seq=%d desc=%s wit=%s ssig=%s tapok=%b\n"
@@ -293,13 +300,352 @@ let handle_run (c : case) (toks : string list) =
             incr c02_bad;
             Printf.printf "BAD C02 case=%s kind=%s mode=%s keymask=%s premask=%s lock=%d seq=%d desc=%s ms=%s wit=%s ssig=%s\n"
               c.id c.kind mode km pm c.lock c.seq c.desc mstr (hexs wit) (hex_of_bytes ssig)
-          | [] -> ()
+          | [] ->
+            (* the table has nothing: brute force over the caller's own material (bounded) so that a
+               gap in the table itself cannot hide a spend *)
+            if mall && !c02_brute_runs < !c02_brute_max then begin
+              incr c02_brute_runs;
+              let held_sigs = List.filter_map (fun (i, sg) -> if kmi land (1 lsl i) <> 0 then Some sg else None) c.sigs_idx in
+              let held_pre = List.filter_map (fun (j, p) -> if j < List.length !pres - 1 && pmi land (1 lsl j) <> 0 then Some p.pre else None) !pres in
+              let ks = List.sort_uniq compare (!ms_keys_fwd m) in
+              let alpha = Array.of_list (List.sort_uniq compare
+                  ([[]; [byte_tab.(1)]; List.init 32 (fun _ -> byte_tab.(0))] @ held_sigs @ held_pre @ List.map (fun i -> (key i).full) ks)) in
+              let a = Array.length alpha in
+              let maxlen = if a <= 6 then 5 else if a <= 9 then 4 else 3 in
+              let found = ref None in
+              let rec enum len prefix =
+                if !found <> None then ()
+                else if len = 0 then begin
+                  incr c02_brute_execs;
+                  let items = List.rev prefix in
+                  match wrap c items with
+                  | Some (ssig, wit) -> if verify_spend e (fun _ _ -> true) c.spk ssig wit then found := Some (ssig, wit)
+                  | None -> ()
+                end else Array.iter (fun x -> enum (len - 1) (x :: prefix)) alpha in
+              for len = 0 to maxlen do enum len [] done;
+              match !found with
+              | Some (ssig, wit) ->
+                incr c02_bad;
+                Printf.printf "BAD C02 case=%s kind=%s mode=%s keymask=%s premask=%s lock=%d seq=%d desc=%s ms=%s wit=%s ssig=%s found=bruteforce\n"
+                  c.id c.kind mode km pm c.lock c.seq c.desc mstr (hexs wit) (hex_of_bytes ssig)
+              | None -> ()
+            end
         end
       | _ -> ()
     end
   | _ -> failwith "bad RUN line"
 
+
+
+(* ------------------------------------------------------------------ C03: third-party malleability search *)
+let c03_checked = ref 0 and c03_bad = ref 0 and c03_candidates = ref 0
+let c03_budget = 4000
+let lcg = ref 12345
+let rnd n = lcg := (!lcg * 1103515245 + 12345) land 0x3fffffff; (!lcg lsr 8) mod n
+
+let split_ws = split
+let c03_search (c : case) (mode : string) km pm (wit : bytes list) (ssig : bytes) (tapok : bool) =
+  (* the script's input items (push order) and how to rebuild (scriptSig, witness) around other items *)
+  let split : (bytes list * (bytes list -> bytes * bytes list)) option =
+    (match c.kind with
+     | "wsh" | "shwsh" ->
+       (match List.rev wit with sc :: r -> Some (List.rev r, (fun cand -> (ssig, cand @ [sc]))) | [] -> None)
+     | "sh" ->
+       (match parse_script ssig with
+        | Some ss -> (match pushonly_stack ss [] with
+            | Some (rb :: st) -> Some (List.rev st, (fun cand -> (ser_pushes cand @ serialize [IPush rb], [])))
+            | _ -> None)
+        | None -> None)
+     | "bare" ->
+       (match parse_script ssig with
+        | Some ss -> (match pushonly_stack ss [] with
+            | Some st -> Some (List.rev st, (fun cand -> (ser_pushes cand, [])))
+            | None -> None)
+        | None -> None)
+     | "tr" ->
+       (match List.rev wit with
+        | cb :: sc :: r -> Some (List.rev r, (fun cand -> ([], cand @ [sc; cb])))
+        | _ -> None)
+     | _ -> None) in
+  if c.sane && mode = "nonmall" then begin
+    match split with
+    | Some (items, rebuild) ->
+      let n = List.length items in
+      if n <= 6 then begin
+        incr c03_checked;
+        let e = mk_env c in
+        let zeros = List.init 32 (fun _ -> byte_tab.(0)) in
+        let pre_all = List.filter_map (fun (j, p) -> if j < List.length !pres - 1 then Some p.pre else None) !pres in
+        let keys_all = List.concat_map (fun (_, k) -> [k.full; k.xonly]) !keys in
+        let junk = [byte_tab.(0xde); byte_tab.(0xad)] in
+        let alpha = List.sort_uniq compare (items @ [[]; [byte_tab.(1)]; zeros; junk] @ pre_all @ keys_all) in
+        let alpha = Array.of_list alpha in
+        let a = Array.length alpha in
+        let try_cand (cand : bytes list) =
+          incr c03_candidates;
+          let (cs, cw) = rebuild cand in
+          if cand <> items && verify_spend e (fun _ _ -> tapok) c.spk cs cw then begin
+            incr c03_bad;
+            Printf.printf "BAD C03 case=%s kind=%s keymask=%s premask=%s lock=%d seq=%d desc=%s original=%s alternative=%s\n"
+              c.id c.kind km pm c.lock c.seq c.desc (hexs items) (hexs cand);
+            true
+          end else false in
+        let found = ref false in
+        (* directed: every entry of the specification's satisfaction table built from what a third
+           party has — the signatures visible in the original witness, EVERY preimage, the locks the
+           signed transaction meets — is an alternative witness to try *)
+        (match c.kind, c.mss with
+         | ("wsh" | "shwsh" | "sh" | "bare"), [mstr] ->
+           let m = parse_ms (split_ws mstr) in
+           let adv_km = List.fold_left (fun acc (i, sg) -> if List.mem sg items then acc lor (1 lsl i) else acc) 0 c.sigs_idx in
+           let adv_pm = (1 lsl (List.length !pres - 1)) - 1 in
+           let adv = assets_of c adv_km adv_pm None in
+           List.iter (fun w -> if not !found then (if try_cand (List.rev w) then found := true))
+             (all_sat (keyenv_of false) adv m)
+         | _ -> ());
+        (* exhaustive for short lengths while the budget allows, then random *)
+        let budget = ref c03_budget in
+        let rec enum len prefix =
+          if !found || !budget <= 0 then ()
+          else if len = 0 then (decr budget; if try_cand (List.rev prefix) then found := true)
+          else Array.iter (fun x -> enum (len - 1) (x :: prefix)) alpha in
+        let pow b e = let r = ref 1 in for _ = 1 to e do r := !r * b done; !r in
+        for len = 0 to n + 1 do
+          if not !found then begin
+            if pow a len <= !budget then enum len []
+            else begin
+              (* random candidates, biased to single-position edits of the original *)
+              let tries = min !budget 600 in
+              for _ = 1 to tries do
+                if not !found then begin
+                  decr budget;
+                  let cand =
+                    if len = n && rnd 2 = 0 then
+                      let pos = rnd (max n 1) in List.mapi (fun i x -> if i = pos then alpha.(rnd a) else x) items
+                    else List.init len (fun _ -> alpha.(rnd a)) in
+                  if try_cand cand then found := true
+                end
+              done
+            end
+          end
+        done
+      end
+    | None -> ()
+  end
+
+
+(* ------------------------------------------------------------------ C06: type labels vs execution on enumerated stacks *)
+let c06_frags = ref 0 and c06_execs = ref 0 and c06_bad = ref 0
+let c06_clauses : (string, int) Hashtbl.t = Hashtbl.create 16
+let clause_hit k = Hashtbl.replace c06_clauses k (1 + (try Hashtbl.find c06_clauses k with Not_found -> 0))
+
+let rec ms_keys (m : ms) : int list =
+  match m with
+  | MPkK k | MPkH k -> [int_of_n k]
+  | MMulti (_, ks) | MSortedMulti (_, ks) | MMultiA (_, ks) | MSortedMultiA (_, ks) -> List.map int_of_n ks
+  | MAlt x | MSwap x | MCheck x | MDupIf x | MVerify x | MNonZero x | MZeroNotEqual x -> ms_keys x
+  | MAndV (x, y) | MAndB (x, y) | MOrB (x, y) | MOrD (x, y) | MOrC (x, y) | MOrI (x, y) -> ms_keys x @ ms_keys y
+  | MAndOr (a, b, c) -> ms_keys a @ ms_keys b @ ms_keys c
+  | MThresh (_, xs) -> List.concat_map ms_keys xs
+  | _ -> []
+let rec ms_hashes (m : ms) : bytes list =
+  match m with
+  | MSha256 h | MHash256 h | MRipemd160 h | MHash160 h -> [h]
+  | MAlt x | MSwap x | MCheck x | MDupIf x | MVerify x | MNonZero x | MZeroNotEqual x -> ms_hashes x
+  | MAndV (x, y) | MAndB (x, y) | MOrB (x, y) | MOrD (x, y) | MOrC (x, y) | MOrI (x, y) -> ms_hashes x @ ms_hashes y
+  | MAndOr (a, b, c) -> ms_hashes a @ ms_hashes b @ ms_hashes c
+  | MThresh (_, xs) -> List.concat_map ms_hashes xs
+  | _ -> []
+
+let fake_sig i = [byte_tab.(0x30); byte_tab.(i); byte_tab.(0x01)]
+
+let rec is_suffix (t : bytes list) (s : bytes list) : bool =
+  t = s || (match s with [] -> false | _ :: r -> is_suffix t r)
+let rec take_l k l = if k = 0 then [] else match l with x :: r -> x :: take_l (k - 1) r | [] -> []
+let rec drop_l k l = if k = 0 then l else match l with _ :: r -> drop_l (k - 1) r | [] -> []
+
+let handle_frag (line : string) =
+  match String.split_on_char '|' line with
+  | [hd; msd; sc] ->
+    (match split hd, split sc with
+     | ["FRAG"; ctx; adm; tystr], [schex] ->
+       let admitted = adm = "adm" in
+       let m = parse_ms (split msd) in
+       let tap = ctx = "tap" in
+       (* "!" : the library panicked while encoding a fragment it accepted and typed; the
+          predictions are then judged on the model's encoding of the same fragment *)
+       let enc_panicked = schex = "!" in
+       let script = if enc_panicked then enc (keyenv_of tap) m else
+           (match parse_script (bytes_of_hex schex) with Some s -> s | None -> failwith "C06: script does not parse") in
+       if enc_panicked then begin
+         incr c06_bad;
+         Printf.printf "BAD C06 ctx=%s type=%s clause=encoder-panics-on-accepted-fragment lock=0 seq=0 ms=%s stack= script=!\n" ctx tystr (String.trim msd)
+       end;
+       let base = tystr.[0] in
+       let props = (match String.index_opt tystr '/' with Some i -> String.sub tystr (i + 1) (String.length tystr - i - 1) | None -> "") in
+       let has c = String.contains props c in
+       if base = 'B' || base = 'V' then begin
+         incr c06_frags;
+         let ks = List.sort_uniq compare (ms_keys m) in
+         let kbytes i = let r = key i in if tap then r.xonly else r.full in
+         let sigpairs = List.map (fun i -> (kbytes i, fake_sig i)) ks in
+         let valid_sigs = List.map snd sigpairs in
+         let known = List.concat_map (fun (_, k) -> [k.full; k.xonly]) !keys in
+         let pre_for_img h = List.filter_map (fun (j, p) ->
+             if j < List.length !pres - 1 && (p.sha = h || p.h256 = h || p.rip = h || p.h160 = h) then Some p.pre else None) !pres in
+         let zeros = List.init 32 (fun _ -> byte_tab.(0)) in
+         let alpha = List.sort_uniq compare
+             ([[]; [byte_tab.(1)]; [byte_tab.(2)]; [byte_tab.(0x30); byte_tab.(0xff)]; zeros]
+              @ valid_sigs @ List.map kbytes ks @ List.concat_map pre_for_img (ms_hashes m)) in
+         let alpha = Array.of_list alpha in
+         let a = Array.length alpha in
+         let maxlen = if a <= 7 then 4 else if a <= 11 then 3 else 2 in
+         let sv_kind = if tap then "tr" else if ctx = "segwitv0" then "wsh" else "sh" in
+         let hashes_tbl = { id = "c06"; kind = sv_kind; sane = true; desc = ""; scripts = []; mss = []; spk = [];
+                            txv = 2; lock = 0; seq = 0; held_abs = None; held_rel = None; sigpairs; sigs_idx = []; sigs_leaf = []; hashes_c = [] } in
+         let envs = [ (499999999, 65535); (2147483647, 0x400000 lor 65535) ] in
+         List.iter (fun (lock, seq) ->
+           let e0 = mk_env_with hashes_tbl lock seq in
+           let e = { e0 with e_sv = (if tap then SvTapscript else if ctx = "segwitv0" then SvWitnessV0 else SvBase);
+                             e_keyok = (fun k -> let l = List.length k in if tap then l = 32 else (l = 33 || l = 65) && List.mem k known) } in
+           let dis_prefixes = ref [] in
+           let bad what st =
+             incr c06_bad;
+             Printf.printf "BAD C06 ctx=%s type=%s clause=%s lock=%d seq=%d ms=%s stack=%s script=%s\n"
+               ctx tystr what lock seq (String.trim msd) (hexs st) schex in
+           let rec enum len prefix =
+             if len = 0 then begin
+               let st = List.rev prefix in
+               incr c06_execs;
+               match exec e script { stk = st; alt = [] } with
+               | Fail -> ()
+               | Ok r ->
+                 if r.alt <> [] then bad "alt-stack-not-restored" st;
+                 let (v, t) = (match base, r.stk with
+                     | 'B', v :: t -> (Some v, t)
+                     | 'B', [] -> bad "B-left-nothing" st; (None, [])
+                     | _, t -> (None, t)) in
+                 if not (is_suffix t st) then bad "frame-not-preserved" st
+                 else begin
+                   let n = List.length st - List.length t in
+                   let consumed = take_l n st in
+                   let sat = (match v with Some v -> truthy v | None -> true) in
+                   let has_valid_sig = List.exists (fun x -> List.mem x valid_sigs) consumed in
+                   if has 'z' && n <> 0 then bad "z-consumed-elements" st;
+                   if has 'o' && n <> 1 then bad "o-did-not-consume-exactly-one" st;
+                   if has 'n' && sat && n > 0 && List.hd st = [] then bad "n-satisfied-with-empty-top" st;
+                   (match v with
+                    | Some v ->
+                      if has 'u' && sat && v <> [byte_tab.(1)] then bad "u-left-other-than-1" st;
+                      if has 'f' && (not sat) && not has_valid_sig then bad "f-dissatisfied-without-signature" st;
+                      if (not sat) && not has_valid_sig then
+                        (if not (List.mem consumed !dis_prefixes) then dis_prefixes := consumed :: !dis_prefixes)
+                    | None -> ());
+                   if has 's' && sat && not has_valid_sig then bad "s-satisfied-without-signature" st
+                 end
+             end else Array.iter (fun x -> enum (len - 1) (x :: prefix)) alpha in
+           for len = 0 to maxlen do enum len [] done;
+           (* d: some signature-free dissatisfaction exists (if the table says one fits the bound); e: it is unique *)
+           if base = 'B' then begin
+             let ke = keyenv_of tap in
+             let a0 : assets = { a_sig = (fun _ -> None); a_sha256 = (fun _ -> None); a_hash256 = (fun _ -> None);
+                                 a_ripemd160 = (fun _ -> None); a_hash160 = (fun _ -> None);
+                                 a_after = (fun _ -> false); a_older = (fun _ -> false) } in
+             let fits = List.exists (fun w -> List.length w <= maxlen) (all_dsat ke a0 m) in
+             if has 'd' && fits && !dis_prefixes = [] then bad "d-no-signature-free-dissatisfaction-found" [];
+             if admitted && has 'e' && has 'm' && List.length !dis_prefixes > 1 then bad "e-dissatisfaction-not-unique" (List.concat !dis_prefixes)
+           end;
+           List.iter (fun c -> if has c then clause_hit (String.make 1 c)) ['z'; 'o'; 'n'; 'd'; 'u'; 'f'; 'e'; 's']
+         ) envs
+       end
+     | _ -> failwith "bad FRAG head")
+  | _ -> failwith "bad FRAG line"
+
+(* ------------------------------------------------------------------ plans (C17) *)
+let c17_checked = ref 0 and c17_bad = ref 0 and c17_lockprobes = ref 0
+let bad17 c mode km pm what extra =
+  incr c17_bad;
+  Printf.printf "BAD C17 case=%s kind=%s mode=%s keymask=%s premask=%s lock=%d seq=%d what=%s desc=%s %s\n"
+    c.id c.kind mode km pm c.lock c.seq what c.desc extra
+
+let handle_plan (c : case) (toks : string list) =
+  match toks with
+  | mode :: km :: pm :: verdict :: rest ->
+    incr c17_checked;
+    let run = (try Some (Hashtbl.find runs (mode ^ "/" ^ km ^ "/" ^ pm)) with Not_found -> None) in
+    (match verdict, run with
+     | "PANIC", _ -> bad17 c mode km pm "plan-panicked" ""
+     | "NONE", Some (Some _) -> bad17 c mode km pm "no-plan-but-satisfier-succeeds" ""
+     | "NONE", _ -> ()
+     | "OK", _ ->
+       (match rest with
+        | a :: r :: ws :: ss :: _wt :: more ->
+          let ws = int_of_string ws and ss = int_of_string ss in
+          (match run with
+           | Some None -> bad17 c mode km pm "plan-but-satisfier-fails" ""
+           | _ -> ());
+          (match more with
+           | "SATERR" :: _ -> bad17 c mode km pm "plan-cannot-be-completed-by-same-assets" ""
+           | "REAL" :: wser :: sser :: "SAT" :: n :: tl ->
+             let wser = int_of_string wser and sser = int_of_string sser and n = int_of_string n in
+             let rec take k l acc = if k = 0 then (List.rev acc, l) else match l with x :: r -> take (k - 1) r (x :: acc) | [] -> failwith "take" in
+             let (wit, tl) = take n tl [] in
+             let wit = List.map bytes_of_hex wit in
+             let ssig = (match tl with "S" :: s :: _ -> bytes_of_hex s | _ -> failwith "no S") in
+             (* how much of an undershoot is explained by "the script itself is not counted" *)
+             let slen = (match c.scripts with [sc] -> List.length sc | _ -> 0) in
+             let push_len n = n + (if n <= 75 then 1 else if n <= 255 then 2 else 3) in
+             let w_contrib = if c.kind = "wsh" || c.kind = "shwsh" then push_len slen + 2 else 0 in
+             let s_contrib = if c.kind = "sh" then push_len slen + 2 else if c.kind = "shwsh" || c.kind = "shwpkh" then 1 else 0 in
+             if ws < wser then
+               bad17 c mode km pm (if ws + w_contrib >= wser && w_contrib > 0 then "announced-witness-size-excludes-script" else "announced-witness-size-too-small")
+                 (Printf.sprintf "announced=%d real=%d" ws wser);
+             if ss < sser then
+               bad17 c mode km pm (if ss + s_contrib >= sser && s_contrib > 0 then "announced-scriptsig-size-excludes-script-push" else "announced-scriptsig-size-too-small")
+                 (Printf.sprintf "announced=%d real=%d" ss sser);
+             (match run with
+              | Some (Some (rw, rs, _)) ->
+                if rw <> wit || rs <> ssig then
+                  bad17 c mode km pm "completed-plan-differs-from-satisfier"
+                    (Printf.sprintf "plan_wit=%s plan_ssig=%s sat_wit=%s sat_ssig=%s" (hexs wit) (hex_of_bytes ssig) (hexs rw) (hex_of_bytes rs))
+              | _ -> ());
+             (* the completed plan must spend (C01 via plan) ... *)
+             let tapok = (match run with Some (Some (_, _, t)) -> t | _ -> true) in
+             let spends lock seq = verify_spend (mk_env_with c lock seq) (fun _ _ -> tapok) c.spk ssig wit in
+             if not (spends c.lock c.seq) then
+               bad17 c mode km pm "completed-plan-does-not-spend" (Printf.sprintf "wit=%s ssig=%s" (hexs wit) (hex_of_bytes ssig))
+             else begin
+               (* ... and the reported locks are sufficient and necessary for this witness *)
+               let ra = if a = "-" then None else Some (int_of_string a) in
+               let rr = if r = "-" then None else Some (int_of_string r) in
+               let lock_exact = (match ra with Some x -> x | None -> 0) in
+               let seq_exact = (match rr with Some x -> x | None -> if ra = None then 0xffffffff else 0xfffffffe) in
+               incr c17_lockprobes;
+               if not (spends lock_exact seq_exact) then
+                 bad17 c mode km pm "reported-locks-not-sufficient" (Printf.sprintf "abs=%s rel=%s" a r);
+               (match ra with
+                | Some x ->
+                  if spends (x - 1) seq_exact then bad17 c mode km pm "abs-lock-not-necessary" (Printf.sprintf "abs=%d accepted_with=%d" x (x - 1));
+                  let other = if x < 500000000 then 500000000 + x else x - 500000000 in
+                  if other > 0 && spends other seq_exact then bad17 c mode km pm "abs-lock-unit-not-checked" (Printf.sprintf "abs=%d accepted_with=%d" x other);
+                  if spends lock_exact 0xffffffff then bad17 c mode km pm "abs-lock-accepted-with-final-sequence" (Printf.sprintf "abs=%d" x)
+                | None -> ());
+               (match rr with
+                | Some x ->
+                  let v = x land 0xffff and ty = x land 0x400000 in
+                  if v > 0 && spends lock_exact (ty lor (v - 1)) then bad17 c mode km pm "rel-lock-not-necessary" (Printf.sprintf "rel=%d accepted_with=%d" x (ty lor (v - 1)));
+                  if spends lock_exact ((ty lxor 0x400000) lor v) then bad17 c mode km pm "rel-lock-unit-not-checked" (Printf.sprintf "rel=%d" x);
+                  if spends lock_exact (0x80000000 lor x) then bad17 c mode km pm "rel-lock-accepted-with-disable-bit" (Printf.sprintf "rel=%d" x)
+                | None -> ())
+             end
+           | _ -> failwith "bad PLAN OK tail")
+        | _ -> failwith "bad PLAN OK")
+     | _ -> failwith "bad PLAN verdict")
+  | _ -> failwith "bad PLAN line"
+
 let () =
+  ms_keys_fwd := ms_keys;
+  Array.iter (fun a -> if a = "--c03" then c03_hook := c03_search; if a = "--brute" then c02_brute_max := 300) Sys.argv;
   let cur = ref None in
   let ncases = ref 0 in
   let upd f = match !cur with Some c -> f c | None -> () in
@@ -335,11 +681,24 @@ let () =
                c.sigpairs <- ((key i).xonly, s) :: c.sigpairs; c.sigs_leaf <- (i, lh, s) :: c.sigs_leaf)
        | "SIGK" :: k :: s :: _ -> upd (fun c -> c.sigpairs <- (bytes_of_hex k, bytes_of_hex s) :: c.sigpairs)
        | "RUN" :: rest -> upd (fun c -> handle_run c rest)
-       | "END" :: _ -> cur := None
+       | "PLAN" :: rest -> upd (fun c -> handle_plan c rest)
+       | "END" :: "frags" :: _ -> print_endline "ENDFRAGS"
+       | "DONE" :: _ -> print_endline "ENDSAT"
+       | "END" :: _ -> cur := None; Hashtbl.reset runs
+       | "FRAG" :: _ -> handle_frag line
+       | "HBAD" :: pid :: _ ->
+         (* a violation detected by the harness itself (two API paths of the implementation disagree) *)
+         if pid = "C17" then (incr c17_bad; incr c17_checked);
+         print_endline ("BAD" ^ String.sub line 4 (String.length line - 4))
+       | "APLAN" :: _ -> incr c17_checked
        | "PANIC" :: _ -> incr stats_panic; print_endline line
        | _ -> ()
      done
    with End_of_file -> ());
-  Printf.printf "SUMMARY cases=%d ok=%d bad=%d err=%d panic=%d model_eq=%d model_diff=%d c02_checked=%d c02_bad=%d\n"
-    !ncases !stats_ok !stats_bad !stats_err !stats_panic !model_eq !model_diff !c02_checked !c02_bad;
+  Printf.printf "SUMMARY cases=%d ok=%d bad=%d err=%d panic=%d model_eq=%d model_diff=%d c02_checked=%d c02_bad=%d c17_checked=%d c17_bad=%d c17_lockprobes=%d c03_checked=%d c03_bad=%d c03_candidates=%d c02_brute_runs=%d c02_brute_execs=%d\n"
+    !ncases !stats_ok !stats_bad !stats_err !stats_panic !model_eq !model_diff !c02_checked !c02_bad !c17_checked !c17_bad !c17_lockprobes !c03_checked !c03_bad !c03_candidates !c02_brute_runs !c02_brute_execs;
+  if !c06_frags > 0 then begin
+    Printf.printf "SUMMARY06 frags=%d execs=%d bad=%d\n" !c06_frags !c06_execs !c06_bad;
+    Hashtbl.iter (fun k v -> Printf.printf "HIST06 %s %d\n" k v) c06_clauses
+  end;
   Hashtbl.iter (fun k v -> Printf.printf "HIST %s %d\n" k v) hist
